@@ -190,11 +190,11 @@ Definition slash_scaled_value_kept : Prop :=
 
 (* F8: delegate 1000, one year (90 pending), slash 100 % *)
 Definition f8_su : setup :=
-  mkSetup 60 100000000000000000 [(1, 100000000000000000)] [(1, 5000); (2, 1000)] [1; 2] 1571797419879305533.
+  mkSetup 60 100000000000000000 [(1, 100000000000000000)] [(1, 5000); (2, 1000)] [1; 2] 1571797419879305533 USTAKE XDEN.
 Definition f8_ops : list op := [Delegate 1 1 1000 true; Advance 31536000000000000].
 (* F9: B delegates 19, six slashes of 10 %, A delegates 2, B undelegates its displayed 10; then slash 50 % *)
 Definition f9_su : setup :=
-  mkSetup 60 100000000000000000 [(1, 100000000000000000)] [(1, 1000); (2, 1000)] [1; 2] 1571797419879305533.
+  mkSetup 60 100000000000000000 [(1, 100000000000000000)] [(1, 1000); (2, 1000)] [1; 2] 1571797419879305533 USTAKE XDEN.
 Definition f9_ops : list op :=
   [Delegate 2 1 19 true; Slash 1 100000000000000000; Slash 1 100000000000000000; Slash 1 100000000000000000;
    Slash 1 100000000000000000; Slash 1 100000000000000000; Slash 1 100000000000000000;
